@@ -15,7 +15,7 @@ PROPS = {
     "C08": P(["pipe"]),
     "C09": P(["hostile", "pipe"], panic_owner="C09"),
     "C10": P(["recover", "control"]),
-    "C11": P(["control", "recover", "pipe", "apply"], panic_owner="C11"),
+    "C11": P(["control", "recover", "pipe", "apply"], panic_owner="C11", quick_s=100),
     "C12": P(["force", "control"], panic_owner="C12"),
     "C13": P(["reconf", "apply"]),
     "C14": P(["api"], level="fault_enumeration"),
